@@ -491,6 +491,34 @@ func (st *evalState) eval(v ssa.Value) (int64, bool) {
 func (st *evalState) evalCall(c *ssa.Call) (int64, bool) {
 	callee := c.Call.StaticCallee()
 	if callee == nil {
+		// a predicate chosen up front: `isDigit := isASCIIDigit; if hex { isDigit = isHex }; ... isDigit(c)` — the value is
+		// decided where all candidates agree
+		if ph, ok := c.Call.Value.(*ssa.Phi); ok && !c.Call.IsInvoke() && len(c.Call.Args) == 1 && len(ph.Edges) > 0 {
+			a, ok := st.eval(c.Call.Args[0])
+			if !ok {
+				return 0, false
+			}
+			var res int64
+			for i, e := range ph.Edges {
+				f, isFn := e.(*ssa.Function)
+				if !isFn || !st.e.p.InModule(f) {
+					return st.fail("dynamic call in predicate")
+				}
+				t := st.e.Table(f)
+				if t.why != "" {
+					return st.fail("callee %s not analysable: %s", f.Name(), t.why)
+				}
+				o, ok := t.lookup(a)
+				if !ok || o.kind != oRet {
+					return st.fail("callee %s undecided for %d", f.Name(), a)
+				}
+				if i > 0 && o.val != res {
+					return st.fail("the candidate predicates disagree on %d", a)
+				}
+				res = o.val
+			}
+			return res, true
+		}
 		return st.fail("dynamic call in predicate")
 	}
 	if st.e.p.InModule(callee) {
